@@ -472,7 +472,7 @@ pub fn install_panic_hook() {
             .location()
             .map(|l| (l.file().to_string(), l.line()))
             .unwrap_or_default();
-        let quiet = QUIET.with(|q| *q.borrow());
+        let quiet = QUIET.with(|q| *q.borrow()) && std::env::var("VERIF_LOUD").is_err();
         LAST_PANIC.with(|p| *p.borrow_mut() = Some((msg, file, line)));
         if !quiet {
             default(info);
